@@ -18,7 +18,7 @@ import (
 // made longer than the first.  The first sentence of the property is unconditional: whatever the producers do,
 // j never replaces a block at or below a LIB it has reported, refuses blocks numbered at or below it and keeps
 // its main chain when the longer branch forks below the LIB.
-func collude(c *vf.Ctx, ri, n int) {
+func collude(c *vf.Ctx, ri, k, n int) {
 	name := fmt.Sprintf("v%d", ri)
 	w := rig.NewWorld(name, c.Scratch(), rig.WorldOpts{Public: true, NAccts: 6, Mempool: "recorder", NBP: n, Strict: true})
 	defer w.CloseAll()
@@ -75,36 +75,70 @@ func collude(c *vf.Ctx, ri, n int) {
 	lpbM := make([]uint64, n)
 	var main []int // main[h-1] = block index at height h
 	slot := 0
-	growMain := func() bool {
+	// phase 0: the first chain is built completely on M; libAt[h] = LIB reported by M with best = h (the LIB is a
+	// function of the chain, so this is what j will report when it has received the same prefix)
+	total := 3*n + 6 + r.Intn(6)
+	libAt := make([]uint64, total+1)
+	for h := 1; h <= total; h++ {
 		slot++
 		if r.Intn(6) == 0 {
 			slot++ // a skipped slot
 		}
 		bi := produce(M, slot, lpbM, 0)
 		if bi < 0 {
-			return false
+			return
 		}
 		main = append(main, bi)
+		info, err := M.Info()
+		if err != nil {
+			c.Inconclusive(name + ": builder died: " + err.Error())
+			return
+		}
+		libAt[h] = info.LibNo
+	}
+	// the LIB steps: t = height whose arrival moves the LIB from libAt[t-1] to libAt[t]
+	var steps []int
+	for t := 2; t <= total-2; t++ {
+		if libAt[t] > libAt[t-1] && libAt[t] <= uint64(t-1) {
+			steps = append(steps, t)
+		}
+	}
+	if len(steps) == 0 { // n=1: the LIB is the best block itself
+		for t := 2; t <= total-2; t++ {
+			if libAt[t] > libAt[t-1] {
+				steps = append(steps, t)
+			}
+		}
+	}
+	if len(steps) == 0 {
+		c.Inconclusive(fmt.Sprintf("%s: LIB never advanced on the builder: %v", name, libAt))
+		return
+	}
+	t := steps[(k/3)%len(steps)]
+	lPrev, lNew := libAt[t-1], libAt[t]
+	// the root of the second branch: reorganisable before block t arrives (>= lPrev), not any more afterwards
+	// (< lNew); k%3==0: the edge lNew-1; sometimes below the LIB from the start
+	var root uint64
+	switch {
+	case k%3 == 0:
+		root = lNew - 1
+	case k%7 == 5 && lPrev > 0:
+		root = uint64(r.Intn(int(lPrev)))
+	default:
+		root = lPrev + uint64(r.Intn(int(lNew-lPrev)))
+	}
+	deliverMain := func(h int) bool {
+		bi := main[h-1]
 		s.trace = append(s.trace, fmt.Sprintf("main #%d(h%d,p%d)", bi, s.blocks[bi].no, s.blocks[bi].producer))
 		return s.deliver(0, bi, false)
 	}
-	// phase 1: the chain grows until j reports a LIB and a little further
-	a1 := 2*n + 2 + r.Intn(5)
-	for i := 0; i < a1; i++ {
-		if !growMain() {
+	for h := 1; h < t; h++ {
+		if !deliverMain(h) {
 			return
 		}
 	}
-	h1 := uint64(len(main))
+	h1 := uint64(t - 1)
 	l1 := s.lib[0].no
-	// phase 2: second branch from root r; mostly at or above the current LIB, sometimes below it
-	var root uint64
-	switch {
-	case l1 > 0 && (r.Intn(5) == 0 || h1 <= l1):
-		root = uint64(r.Intn(int(l1))) // below the LIB already: every block of the branch <= LIB must be refused
-	case h1 > l1:
-		root = l1 + uint64(r.Intn(int(h1-l1)))
-	}
 	for h := uint64(1); h <= root; h++ {
 		if res, err := F.AddBlock(s.blocks[main[h-1]].bytes); err != nil || res != "" {
 			c.Inconclusive(fmt.Sprintf("%s: fork builder refused main block: %v %s", name, err, res))
@@ -126,11 +160,12 @@ func collude(c *vf.Ctx, ri, n int) {
 		fork = append(fork, bi)
 		return true
 	}
+	// a prefix of the second branch, not longer than the first chain, is stored as a side branch now
 	early := 0
 	if root < h1 {
-		early = r.Intn(int(h1-root) + 1) // not longer than the main chain: stored as a side branch
-		if early == 0 && ri%2 == 0 {
-			early = 1
+		early = 1 + r.Intn(int(h1-root))
+		if k%4 == 3 {
+			early = 0
 		}
 	}
 	for i := 0; i < early; i++ {
@@ -142,17 +177,14 @@ func collude(c *vf.Ctx, ri, n int) {
 			return
 		}
 	}
-	// phase 3: the first chain grows until the LIB has passed the root, plus 0..2 blocks
-	for k := 0; s.lib[0].no <= root && k < 6*n+6; k++ {
-		if !growMain() {
+	// block t moves the LIB past the root; 0..2 more blocks
+	last := t + []int{0, 1, 0, 2}[k%4]
+	for h := t; h <= last; h++ {
+		if !deliverMain(h) {
 			return
 		}
 	}
-	for k := ri % 3; k > 0; k-- {
-		if !growMain() {
-			return
-		}
-	}
+	main = main[:last]
 	h2 := uint64(len(main))
 	l2 := s.lib[0].no
 	mainTip := s.blocks[main[h2-1]].hash
